@@ -3,7 +3,8 @@
    Case layout (see harness/cmd/c14/main.go):
    1 ORDER : nodes: list of (id, kind (0 history, 2 datasource error), versions: list of list of (isrel, ref))
              requests: list of id;  mode(0 run to the end, 1 Close after k Next, 2 cancel after k Next,
-             3 Close while the datasource is inside the lookup of relation k and honours only its context) k
+             3 Close while the datasource is inside the lookup of relation k and honours only its context,
+             4 cancel then Close after k Next) k
            | emitted: list of id;  err (mode 0: 0 nil, 1 cancelled, 2 datasource error; else 0 nil, 1 non-nil)
              terminated (Next false afterwards, goroutine gone within the deadline)
              CompletedIndex read after Close (mode 0; -1 otherwise)
